@@ -71,7 +71,58 @@ def run_multipoint(col):
         # self-equilibrated: forces sum to zero per component
         bad = [i for i in range(d) if not is_zero(sum((P(rd[d * n_ + i, 0]) for n_ in range(ra.mesh.npoints)), ZERO))]
         col.add("C01.O7", "MultiPointConstraint skip=%s equilibrium" % (skip,), "constraint forces are self-equilibrated (sum over points vanishes per component)", not bad, str(bad))
+    # the centre point is itself one of the coupled points (e.g. all points of a face with one of them as master)
+    item = it.call(cls, [fc], dict(points=[0, 1, 3], centerpoint=3, skip=(False, False, False), multiplier=k))
+    asm = it.getattr(item, "assemble")
+    r = it.call(it.getattr(asm, "vector"), [fc], {})
+    K = it.call(it.getattr(asm, "matrix"), [fc], {})
+    _deriv(col, "C01.O7", "MultiPointConstraint centre point among the points", method_where(cls, "_matrix"), r, K, unknowns)
+    rd = micro.dense(r)
+    bad = [i for i in range(d) if not is_zero(sum((P(rd[d * n_ + i, 0]) for n_ in range(ra.mesh.npoints)), ZERO))]
+    col.add("C01.O7", "MultiPointConstraint centre point among the points equilibrium", "constraint forces are self-equilibrated also when the centre point is one of the coupled points", not bad,
+            "%s: unbalanced components %s" % (method_where(cls, "_vector"), bad))
     cls = it.get("felupe.mechanics._multipoint:MultiPointContact")
+    # contact with the centre point listed among the points, all other gaps closed: forces still balance
+    def oracle_c(a, b, op):
+        if not (b.is_const() and b.const_value() == 0):
+            return None
+        deformed = any(ring.G.info[g]["kind"] == "sym" and ring.G.info[g]["name"].startswith("U[") for g in ring.all_syms(a))
+        positive = not deformed
+        return {">": positive, "<": not positive, ">=": positive, "<=": not positive}[op]
+    ring.ORDER_ORACLE[0] = oracle_c
+    try:
+        item = it.call(cls, [fc], dict(points=[0, 1, 3], centerpoint=3, skip=(True, False, False), multiplier=k))
+        asm = it.getattr(item, "assemble")
+        r = it.call(it.getattr(asm, "vector"), [fc], {})
+        K = it.call(it.getattr(asm, "matrix"), [fc], {})
+    finally:
+        ring.ORDER_ORACLE[0] = None
+    _deriv(col, "C01.O7", "MultiPointContact centre point among the points (closed)", method_where(cls, "_matrix"), r, K, unknowns)
+    rd = micro.dense(r)
+    bad = [i for i in range(d) if not is_zero(sum((P(rd[d * n_ + i, 0]) for n_ in range(ra.mesh.npoints)), ZERO))]
+    col.add("C01.O7", "MultiPointContact centre point among the points equilibrium", "contact forces are self-equilibrated also when the centre point is one of the listed points",
+            not bad and any(P(x).t for x in rd.reshape(-1)), "%s: unbalanced components %s" % (method_where(cls, "_vector"), bad))
+    # a wall that initially touches the body: the initial gap of point 0 vanishes identically on the monitored axis
+    Xsave = ra.mesh.points[0, 1]
+    for case in ("closed", "open"):
+        ra.mesh.points[0, 1] = ra.mesh.points[3, 1]
+
+        def oracle0(a, b, op, case=case):
+            if not (b.is_const() and b.const_value() == 0):
+                return None
+            positive = case == "open"
+            return {">": positive, "<": not positive, ">=": positive, "<=": not positive}[op]
+        ring.ORDER_ORACLE[0] = oracle0
+        try:
+            item = it.call(cls, [fc], dict(points=[0], centerpoint=3, skip=(True, False, False), multiplier=k))
+            asm = it.getattr(item, "assemble")
+            r = it.call(it.getattr(asm, "vector"), [fc], {})
+            K = it.call(it.getattr(asm, "matrix"), [fc], {})
+        finally:
+            ring.ORDER_ORACLE[0] = None
+            ra.mesh.points[0, 1] = Xsave
+        _deriv(col, "C01.O7", "MultiPointContact zero initial gap (current gap %s)" % ("negative" if case == "closed" else "positive"), method_where(cls, "_matrix"), r, K, unknowns,
+               rule="a contact point whose initial gap vanishes: vector and matrix use the same active set, matrix == d vector / d unknowns away from the switching point")
     for case in ("closed", "open"):
         def oracle(a, b, op, case=case):
             if not (b.is_const() and b.const_value() == 0):
